@@ -548,12 +548,17 @@ func vfC38Run(t *testing.T, cs vfC38Case, out *vfC38Out, isKnown func(string) bo
 		spy.mu.Lock()
 		spyEvents := append([]vfC38SpyEv(nil), spy.events...)
 		spy.mu.Unlock()
-		var sentinels []int64
+		var sentinels []vfC38SpyEv
+		pubAt := map[time.Duration]bool{} // virtual instants at which the medium handed a publication on
 		for _, e := range spyEvents {
 			if e.Sentinel {
-				sentinels = append(sentinels, e.Seq)
+				sentinels = append(sentinels, e)
+			} else {
+				pubAt[e.At] = true
 			}
 		}
+		allSegs := make([][]*vfC38Seg, len(cs.Subs))
+		sentinelGrace := cs.Medium.broadcastDelay + 2*time.Second
 		if len(sentinels) > 0 {
 			out.label("medium_broadcast_insufficient_state")
 		}
@@ -573,20 +578,21 @@ func vfC38Run(t *testing.T, cs vfC38Case, out *vfC38Out, isKnown func(string) bo
 			handedPtr := 0
 			var firstHandedInSeg int
 			delivered := 0
-			endSeg := func(seq int64) {
+			endSeg := func(f vfFrame, insuff bool) {
 				if active {
-					cur.ended, cur.endSeq = true, seq
+					cur.ended, cur.endSeq, cur.endAt, cur.insuff = true, f.Seq, f.At, insuff
 				}
 				active = false
 			}
-			startSeg := func(seq int64, off uint64) string {
+			startSeg := func(f vfFrame, off uint64) string {
+				seq := f.Seq
 				if active {
 					return "a second subscription start arrived while the previous one is still active"
 				}
 				active = true
 				last, start = off, off
 				haveBase = false
-				cur = &vfC38Seg{startSeq: seq}
+				cur = &vfC38Seg{startSeq: seq, startAt: f.At}
 				segs = append(segs, cur)
 				firstHandedInSeg = handedPtr
 				return ""
@@ -661,7 +667,7 @@ func vfC38Run(t *testing.T, cs vfC38Case, out *vfC38Out, isKnown func(string) bo
 				case r.Subscribe != nil && r.Error == nil:
 					res := r.Subscribe
 					a := attempts[i][r.Id]
-					m = startSeg(f.Seq, res.Offset)
+					m = startSeg(f, res.Offset)
 					if m == "" && res.Recovered && a != nil && res.Offset != a.reqOffset {
 						m = fmt.Sprintf("recovered=true but reply offset %d differs from the requested %d", res.Offset, a.reqOffset)
 					}
@@ -675,19 +681,19 @@ func vfC38Run(t *testing.T, cs vfC38Case, out *vfC38Out, isKnown func(string) bo
 						m = deliver(p, "subscribe reply", false)
 					}
 				case r.Unsubscribe != nil:
-					endSeg(f.Seq)
+					endSeg(f, false)
 				case r.Push != nil && r.Push.Channel == ch && r.Push.Subscribe != nil:
-					m = startSeg(f.Seq, r.Push.Subscribe.Offset)
+					m = startSeg(f, r.Push.Subscribe.Offset)
 				case r.Push != nil && r.Push.Channel == ch && r.Push.Unsubscribe != nil:
 					if active && r.Push.Unsubscribe.Code == UnsubscribeCodeInsufficient {
 						out.label("ended_with_insufficient_state")
 					}
-					endSeg(f.Seq)
+					endSeg(f, r.Push.Unsubscribe.Code == UnsubscribeCodeInsufficient)
 				case r.Push != nil && r.Push.Disconnect != nil:
 					if active && r.Push.Disconnect.Code == DisconnectInsufficientState.Code {
 						out.label("ended_with_insufficient_state")
 					}
-					endSeg(f.Seq)
+					endSeg(f, r.Push.Disconnect.Code == DisconnectInsufficientState.Code)
 				case r.Push != nil && r.Push.Channel == ch && r.Push.Pub != nil:
 					m = deliver(r.Push.Pub, fmt.Sprintf("push, frame %d", fi), true)
 				}
@@ -699,12 +705,13 @@ func vfC38Run(t *testing.T, cs vfC38Case, out *vfC38Out, isKnown func(string) bo
 			if delivered > 0 {
 				out.label("publications_delivered")
 			}
+			allSegs[i] = segs
 			if sub.positioned() {
-				for _, sq := range sentinels {
+				for _, se := range sentinels {
 					for _, sg := range segs {
-						if sg.startSeq < sq && (!sg.ended || sg.endSeq > sq) {
-							if !sg.ended && !closed {
-								return fail("the medium broadcast insufficient state (detected position loss) while this positioned subscription was established, but the subscription never ended")
+						if sg.startSeq < se.Seq && (!sg.ended || sg.endSeq > se.Seq) {
+							if (!sg.ended && !closed) || (sg.ended && sg.endAt > se.At+sentinelGrace) {
+								return fail("the medium broadcast insufficient state at %s (detected position loss) while this positioned subscription was established, but the subscription did not end (ended=%v at %s)", se.At, sg.ended, sg.endAt)
 							}
 							out.label("positioned_sub_ended_after_medium_detection")
 						}
@@ -715,6 +722,70 @@ func vfC38Run(t *testing.T, cs vfC38Case, out *vfC38Out, isKnown func(string) bo
 				}
 				if active && !closed && last != top {
 					out.label("positioned_alive_behind_top_undetected_yet")
+				}
+			}
+		}
+		// A positioned subscription that ended with insufficient state at a virtual instant at which the medium handed no
+		// publication on was ended by the periodic position check. With shared position sync that check is the medium's:
+		// it "marks all channel subscribers with insufficient state", so every other positioned subscription established
+		// at that instant must end too (right away, or one broadcast delay later).
+		if cs.Medium.SharedPositionSync && !shutdown {
+			for i := range cs.Subs {
+				for _, sg := range allSegs[i] {
+					if !cs.Subs[i].positioned() || !sg.insuff || pubAt[sg.endAt] {
+						continue
+					}
+					near := false // a publication handed on shortly before (delayed gap detection is not a check)
+					for at := range pubAt {
+						if at <= sg.endAt && sg.endAt-at < 50*time.Millisecond {
+							near = true
+						}
+					}
+					if near {
+						continue
+					}
+					out.label("positioned_sub_ended_by_periodic_check_shared_sync")
+					for j := range cs.Subs {
+						if j == i || !cs.Subs[j].positioned() {
+							continue
+						}
+						closedJ, _ := conns[j].T.Closed()
+						for _, og := range allSegs[j] {
+							if og.startAt < sg.endAt && (!og.ended || og.endAt >= sg.endAt) {
+								if (!og.ended && !closedJ) || (og.ended && og.endAt > sg.endAt+sentinelGrace) {
+									return fmt.Sprintf("shared position sync: subscriber %d's positioned subscription was ended by the periodic position check at %s (loss detected through the medium), but subscriber %d's positioned subscription established at that moment did not end with it (ended=%v at %s); frames of %d: %s; frames of %d: %s",
+										i, sg.endAt, j, og.ended, og.endAt, i, vfTrunc(vfRenderFrames(conns[i].Frames()), 900), j, vfTrunc(vfRenderFrames(conns[j].Frames()), 900))
+								}
+							}
+						}
+					}
+				}
+			}
+		}
+		// quiet phase verdict
+		if len(quiet) > 0 {
+			allStale, anyStale := true, false
+			for _, q := range quiet {
+				allStale = allStale && q.stale
+				anyStale = anyStale || q.stale
+			}
+			shared := cs.Medium.SharedPositionSync
+			switch {
+			case !anyStale:
+				out.label("quiet_phase_all_positions_at_top")
+			case shared && !allStale:
+				out.label("quiet_phase_mixed_positions_shared_sync(no guarantee)")
+			default:
+				out.label("quiet_phase_loss_must_be_detected")
+				for _, q := range quiet {
+					if !q.stale {
+						continue
+					}
+					closedQ, _ := conns[q.idx].T.Closed()
+					if !closedQ && conns[q.idx].Client.IsSubscribed(ch) {
+						return fmt.Sprintf("subscriber %d: positioned subscription behind the stream top (publication lost at the PUB/SUB boundary) survived a quiet period of 3 position check delays + 4 ticks without being ended (shared sync=%v); frames: %s",
+							q.idx, shared, vfTrunc(vfRenderFrames(conns[q.idx].Frames()), 1500))
+					}
 				}
 			}
 		}
